@@ -8,7 +8,7 @@ cd /repo || exit 2
 git apply "$P" || { echo APPLY-FAILED; exit 3; }
 for p in "$@"; do
   out=$(cd /verif && ./check $p --tier ${TIER:-quick} 2>&1); rc=$?
-  echo "== $p exit=$rc"; echo "$out" | grep -E "VIOLATION|KNOWN-FINDING|obligations" | cut -c1-300
+  echo "== $p exit=$rc"; printf "%s\n" "$out" | grep -E "VIOLATION|KNOWN-FINDING|obligations" | cut -c1-300
 done
 git -C /repo checkout -- . ; git -C /repo status --porcelain
 # restore generated artefacts to the unchanged tree
